@@ -263,7 +263,7 @@ DoSet(off, bsz) ==
      /\ viol' = IF s.B.idx + 1 >= IovN THEN {"table:wbuf_set"} ELSE {}
   /\ UNCHANGED <<rpos, next, low, rounds>>
 
-DoSet2(gap, bsz, who) ==      \* who \in Readers \cup {"none"}: the optional rpos out-parameter
+DoSet2(gap, bsz, who) ==      \* who \in Readers, or -1 = NULL: the optional rpos out-parameter
   /\ got # None /\ gap + bsz <= got.n
   /\ LET p == got.b + gap  s == WbufSet2(rb, p, bsz) IN
      /\ rb' = s.B
